@@ -1,4 +1,6 @@
 import EmbitModel.Props.C18X
+import EmbitModel.Proofs.PsetV0Whole
+import EmbitModel.Proofs.PsetV0ParseWF
 /-
   C18 (round 5, audit2 items B-4, A-4, D-1/D53): version-0 PSETs after the repairs `fixes/d53.diff` (the scopes keep the
   peg-in flag, the issuance and the output nonce of the global transaction they are created from) and `fixes/b4.diff`
@@ -118,11 +120,189 @@ theorem pset_v0_signed_refused_example :
     ∧ LTx.hasWitness signedTx = true := by
   decide +kernel
 
--- GOAL (not proved): pset_v0_parse_lossless_full — `LPset.parse ko b = some p`, version ≠ 2, no input scope with
---   `pset 00/01` ⇒ `p.tx = some t` for the global transaction t, and the PSET re-serialises with every global pair
---   (composition of `pset_v0_input_kept` / `pset_v0_output_kept` over `LPset.parse_decomp`, as `LPset.tx_of_v0` does
---   under `D53Free`; needs `hasWitness t = false` carried out of `lglobalFold`).
--- GOAL (not proved): pset_v0_parse_wf — every parsed version-0 PSET satisfies a well-formedness from which
---   serialise-then-parse follows (`LPsetWF0` now demands empty kept transaction parts, see Proofs/PsetSerParse.lean).
+/-! ## whole version-0 PSETs (round 6): the statements of C18X that carried `D53Free`, without it -/
+
+/-- MAIN (replaces the version-0 clause of `C18X.pset_parse_lossless`). Whatever `PSET.parse` accepts is the canonical
+    framing of a global scope `g`, input scopes `ins`, output scopes `outs`; counts are kept; every scope writes back a
+    permutation of the pairs read for it (as in `C18X.pset_parse_lossless`); version 2: every global pair is written
+    back; version 0: the global scope contains the pair of a well-formed transaction `t` that is unsigned (empty
+    scriptSigs) and carries no witness (fix `b4`), there is one scope per input / output of `t`, every global pair but
+    the transaction is written back whenever the global scope can be written, and — if no input scope holds the PSETv2
+    issuance fields `pset 00/01` (`NoOwnIssuance`, decidable; these take precedence by design) — the transaction rebuilt
+    from the scopes IS `t`, WHATEVER issuance, peg-in flag or output nonce `t` carries (fix `d53`), it serialises, and all
+    global pairs including the transaction are written back bit-identically. -/
+theorem pset_v0_parse_lossless_full (ko : KeyOps) (b : Bytes) (p : LPset) (h : LPset.parse ko b = some p) :
+    ∃ (g : List KV) (ins outs : List (List KV)),
+      b = psetMagic ++ writeKVs g ++ ins.flatMap writeKVs ++ outs.flatMap writeKVs
+      ∧ (∀ kv ∈ g, KVWF kv) ∧ (∀ kvs ∈ ins, ∀ kv ∈ kvs, KVWF kv) ∧ (∀ kvs ∈ outs, ∀ kv ∈ kvs, KVWF kv)
+      ∧ ins.length = p.inputs.length ∧ outs.length = p.outputs.length
+      ∧ (∀ (j : Nat) (kvs : List KV) (s : LInScope), ins[j]? = some kvs → p.inputs[j]? = some s →
+            (∀ kv ∈ kvs, kv ∈ s.pairs p.version) ∧ kvs.Perm (s.pairs p.version)
+            ∧ ((s.pairs p.version).map Prod.fst).Nodup)
+      ∧ (∀ (j : Nat) (kvs : List KV) (s : LOutScope), outs[j]? = some kvs → p.outputs[j]? = some s →
+            s.pairs p.version = some (s.pairsL p.version)
+            ∧ (∀ kv ∈ kvs, (LOutField.canonKey p.version kv.1, kv.2) ∈ s.pairsL p.version)
+            ∧ (kvs.map (fun kv => (LOutField.canonKey p.version kv.1, kv.2))).Perm (s.pairsL p.version)
+            ∧ ((s.pairsL p.version).map Prod.fst).Nodup)
+      ∧ (p.version = some 2 → (∀ kv ∈ g, kv.1 ≠ [0x00]) ∧ ∃ gp, p.globalPairs = some gp ∧ ∀ kv ∈ g, kv ∈ gp)
+      ∧ (p.version ≠ some 2 → ∃ t, ([0x00], LTx.ser t) ∈ g ∧ WF t ∧ LUnsigned t ∧ LTx.hasWitness t = false
+            ∧ p.inputs.length = t.vin.length ∧ p.outputs.length = t.vout.length
+            ∧ (∀ gp, p.globalPairs = some gp → ∀ kv ∈ g, kv.1 ≠ [0x00] → kv ∈ gp)
+            ∧ (NoOwnIssuance ins = true → p.tx = some t ∧ LTx.serOpt t = some (LTx.ser t)
+                 ∧ ∃ gp, p.globalPairs = some gp ∧ ∀ kv ∈ g, kv ∈ gp)) :=
+  LPset.parse_lossless_kept ko b p h
+
+/-- consequence (replaces `C18X.pset_v0_reserialise_partial`): a parsed version-0 PSET whose input scopes hold no
+    `pset 00/01` field rebuilds its global transaction and re-serialises: global scope with every original pair (the
+    transaction pair bit-identical), then one written scope per original scope -/
+theorem pset_v0_reserialise (ko : KeyOps) (b : Bytes) (p : LPset) (h : LPset.parse ko b = some p)
+    (hv : p.version ≠ some 2) :
+    ∃ (g : List KV) (ins outs : List (List KV)) (t : LTx),
+      b = psetMagic ++ writeKVs g ++ ins.flatMap writeKVs ++ outs.flatMap writeKVs
+      ∧ ([0x00], LTx.ser t) ∈ g ∧ LTx.hasWitness t = false
+      ∧ ins.length = p.inputs.length ∧ outs.length = p.outputs.length
+      ∧ (NoOwnIssuance ins = true → p.tx = some t ∧ ∃ gp,
+          LPset.ser p = some (psetMagic ++ writeKVs gp
+            ++ p.inputs.flatMap (fun s => writeKVs (s.pairs p.version))
+            ++ p.outputs.flatMap (fun s => writeKVs (s.pairsL p.version)))
+          ∧ (∀ kv ∈ g, kv ∈ gp)) := by
+  obtain ⟨g, ins, outs, eb, _, _, _, l1, l2, _, fo, _, g0⟩ := pset_v0_parse_lossless_full ko b p h
+  obtain ⟨t, hm, _, _, hnw, _, _, _, hfree⟩ := g0 hv
+  refine ⟨g, ins, outs, t, eb, hm, hnw, l1, l2, ?_⟩
+  intro hf
+  obtain ⟨htx, _, gp, hgp, hall⟩ := hfree hf
+  refine ⟨htx, gp, LPset.ser_of_globalPairs p gp hgp ?_, hall⟩
+  intro s hs
+  obtain ⟨j, hj⟩ := List.mem_iff_getElem?.mp hs
+  have hjl : j < outs.length := by rw [l2]; exact (List.getElem?_eq_some_iff.mp hj).1
+  exact (fo j outs[j] s (List.getElem?_eq_getElem hjl) hj).1
+
+/-- the new side condition is strictly weaker than the old one -/
+theorem noOwnIssuance_of_D53Free (t : LTx) (ins : List (List KV)) (h : D53Free t ins = true) :
+    NoOwnIssuance ins = true := by
+  simp only [D53Free, Bool.and_eq_true] at h
+  exact h.2
+
+/-! non-vacuity: the issuance / peg-in / nonce transaction above with NON-EMPTY scopes (a liquid value and an unknown
+    proprietary key on the input, a blinding key on the output): parsed, the transaction is kept, the bytes come back,
+    `NoOwnIssuance` holds and `D53Free` does not -/
+
+def issuanceIn : List KV := [(psetTag ++ [0x7f], [1]), (LInField.key .value, leN 8 7)]
+def issuanceOut : List KV := [(LOutField.key false .blindingPubkey, [2, 3])]
+
+def issuancePsetFull : Bytes :=
+  psetMagic ++ writeKVs [([0x00], LTx.ser issuanceTx)] ++ writeKVs issuanceIn ++ writeKVs issuanceOut
+
+set_option maxRecDepth 100000 in
+theorem pset_v0_issuance_scopes_kept :
+    (LPset.parse trivialKo issuancePsetFull).bind LPset.tx = some issuanceTx
+    ∧ (LPset.parse trivialKo issuancePsetFull).bind LPset.ser = some issuancePsetFull
+    ∧ (LPset.parse trivialKo issuancePsetFull).map (·.version) = some none
+    ∧ NoOwnIssuance [issuanceIn] = true ∧ D53Free issuanceTx [issuanceIn] = false := by
+  decide +kernel
+
+/-- and the side condition is needed: an input scope that holds `pset 00` (issuance value 9) overrides the issuance of
+    the global transaction — the rebuilt transaction differs from it (by design precedence, tallied by the harness) -/
+def ownIssuancePset : Bytes :=
+  psetMagic ++ writeKVs [([0x00], LTx.ser issuanceTx)] ++ writeKVs [(LInField.key .issueValue, leN 8 9)] ++ writeKVs []
+
+set_option maxRecDepth 100000 in
+theorem pset_v0_own_issuance_overrides :
+    ((LPset.parse trivialKo ownIssuancePset).bind LPset.tx).isSome = true
+    ∧ (LPset.parse trivialKo ownIssuancePset).bind LPset.tx ≠ some issuanceTx
+    ∧ NoOwnIssuance [[(LInField.key .issueValue, leN 8 9)]] = false := by
+  decide +kernel
+
+/-! ## serialise-then-parse and well-formedness of version-0 objects that keep transaction parts (round 6) -/
+
+/-- input scope with kept parts (peg-in flag, issuance of the global transaction): for a scope that is well-formed once
+    these parts are cleared (`LInWF ko s.clr` — `LInWF` itself demands empty kept parts) the pairs written fold back
+    to the scope from the seed `read_from` really starts with, kept parts included (`seedOfK`); generalises
+    `C18X.input_scope_ser_parse` -/
+theorem input_scope_ser_parse_kept (ko : KeyOps) (ver : Option Nat) (s : LInScope) (h : LInWF ko s.clr) (r : Bytes) :
+    readKVs (writeKVs (s.pairs ver) ++ r) = some (s.pairs ver, r)
+    ∧ LInScope.addPairs ko (LInScope.seedOfK ver s) (s.pairs ver) = some s.norm :=
+  ⟨readKVs_write _ r (LInScope.pairs_wf ko ver s.clr h), LInScope.addPairs_pairsK ko ver s h⟩
+
+/-- version-0 output scope that keeps the nonce of the global transaction's output; generalises
+    `C18X.output_scope_ser_parse_v0` -/
+theorem output_scope_ser_parse_v0_kept (ko : KeyOps) (ver : Option Nat) (hv : ver ≠ some 2) (s : LOutScope)
+    (h : LOutWF0 ko s.clr) (r : Bytes) :
+    s.pairs ver = some (s.pairsL ver)
+    ∧ readKVs (writeKVs (s.pairsL ver) ++ r) = some (s.pairsL ver, r)
+    ∧ LOutScope.addPairs ko s.seedOf0K (s.pairsL ver) = some s.norm :=
+  ⟨by simp [LOutScope.pairs_eq, hv], readKVs_write _ r (LOutScope.pairsL_wf0 ko ver s.clr h),
+   LOutScope.addPairs_pairs0K ko ver hv s h⟩
+
+/-- MAIN, version 0 with kept parts (generalises `C18X.pset_v0_ser_parse`, whose `LPsetWF0` admits only scopes WITHOUT
+    kept transaction parts): a well-formed version-0 object — `LPsetWF0K`: it carries its transaction, its scopes are
+    well-formed once the kept parts are cleared, and the seeds derived from its transaction (kept parts included) are
+    the seeds of its scopes — serialises, and parsing the bytes gives the object back -/
+theorem pset_v0_ser_parse_kept (ko : KeyOps) (p : LPset) (h : LPsetWF0K ko p) :
+    ∃ b, LPset.ser p = some b ∧ LPset.parse ko b = some p.norm :=
+  LPset.parse_ser_v0K ko p h
+
+/-- the old well-formedness is the special case "no kept parts" -/
+theorem psetWF0K_of_WF0 (ko : KeyOps) (p : LPset) (h : LPsetWF0 ko p) : LPsetWF0K ko p := by
+  obtain ⟨t, a1, a2, a3, a4, a5, a6, a7⟩ := h.tx
+  have ci : ∀ s ∈ p.inputs, s.clr = s := by
+    intro s hs
+    obtain ⟨e1, e2⟩ := (h.ins s hs).txparts
+    cases s with
+    | mk b n w lf ip ti => simp only at e1 e2; subst e1; subst e2; rfl
+  have co : ∀ s ∈ p.outputs, s.clr = s := by
+    intro s hs
+    have e := (h.outs s hs).txNonce
+    cases s with
+    | mk b vc lf tn => simp only at e; subst e; rfl
+  refine ⟨h.version, h.versionLt, h.xpubs, h.xpubsNodup, h.unknown, h.unknownNodup,
+    fun s hs => by rw [ci s hs]; exact h.ins s hs, fun s hs => by rw [co s hs]; exact h.outs s hs,
+    t, a1, a2, a3, a4, a5, ?_, ?_⟩
+  · intro j s hj
+    have hs := List.mem_of_getElem? hj
+    obtain ⟨e1, e2⟩ := (h.ins s hs).txparts
+    rw [a6 j s hj, LInScope.seedOfK, e1, e2]
+    unfold LInScope.seedOf LInScope.withParts
+    split <;> rfl
+  · intro j s hj
+    have hs := List.mem_of_getElem? hj
+    rw [a7 j s hj, LOutScope.seedOf0K, (h.outs s hs).txNonce]
+    rfl
+
+/-- MAIN (the former GOAL `pset_v0_parse_wf`): every version-0 PSET that `PSET.parse` returns and whose input scopes build
+    no issuance from fields of their own (`LPset.noOwnIssuance`, decidable on the object: `LInputScope.asset_issuance`
+    computed from the scope's `pset` fields alone is None — in particular every PSET without `pset 00/01` input fields)
+    is well-formed in the sense `LPsetWF0K`. The condition cannot be dropped: see `pset_v0_own_issuance_unparseable`. -/
+theorem pset_v0_parse_wf (ko : KeyOps) (b : Bytes) (p : LPset) (h : LPset.parse ko b = some p)
+    (hv : p.version ≠ some 2) (hfree : p.noOwnIssuance = true) : LPsetWF0K ko p :=
+  LPset.parse_wf_v0 ko b p h hv hfree
+
+/-- hence parse ∘ serialise ∘ parse = norm ∘ parse on such version-0 PSETs, whatever issuance / peg-in flag / nonce the
+    global transaction carries: what was accepted re-serialises, the bytes parse to the same object (liquid tables in
+    `write_to` order), and the bytes written are a fixed point -/
+theorem pset_v0_parse_ser_parse (ko : KeyOps) (b : Bytes) (p : LPset) (h : LPset.parse ko b = some p)
+    (hv : p.version ≠ some 2) (hfree : p.noOwnIssuance = true) :
+    ∃ b', LPset.ser p = some b' ∧ LPset.parse ko b' = some p.norm :=
+  LPset.parse_ser_parse_v0 ko b p h hv hfree
+
+set_option maxRecDepth 100000 in
+/-- non-vacuity: the issuance / peg-in / nonce PSET with non-empty scopes above satisfies the hypotheses -/
+example : (LPset.parse trivialKo issuancePsetFull).map (fun p => (p.noOwnIssuance, decide (p.version ≠ some 2)))
+    = some (true, true) := by decide +kernel
+
+/-- known finding C18-KF1, on the model: with `pset 01` (own issuance commitment) and a token commitment of 5 bytes in
+    an input scope, the PSET is accepted and serialises, but the bytes written are refused (the rebuilt global
+    transaction is no Elements transaction) — so `noOwnIssuance` cannot be dropped from `pset_v0_parse_ser_parse` -/
+def malformedOwnPset : Bytes :=
+  psetMagic ++ writeKVs [([0x00], LTx.ser peginTx)]
+    ++ writeKVs [(LInField.key .issueCommitment, 0x08 :: List.replicate 32 6), (LInField.key .tokenCommitment, [1, 2, 3, 4, 5])]
+    ++ writeKVs []
+
+set_option maxRecDepth 100000 in
+theorem pset_v0_own_issuance_unparseable :
+    ((LPset.parse trivialKo malformedOwnPset).bind LPset.ser).isSome = true
+    ∧ ((LPset.parse trivialKo malformedOwnPset).bind LPset.ser).bind (LPset.parse trivialKo) = none
+    ∧ (LPset.parse trivialKo malformedOwnPset).map LPset.noOwnIssuance = some false := by
+  decide +kernel
 
 end Embit.Props.C18Z
